@@ -8,6 +8,7 @@
  *   F <text>                  append a line to the format file
  *   R <file> <type> <n> <hex>*n   write a binary file of n elements
  *                             (type: i8 u8 i16 u16 i32 u32 i64 u64 f32 f64; hex = element bits)
+ *   T <file> <text>           write a text file ('|' stands for newline), e.g. a LINTERP table
  *   O                         write the format file and gd_open() read-only
  *   G <field>                 print "g <spf> <frame_offset> <nframes> <base> <n> <f64 bits>*n"
  *                             = gd_getdata(field, first_sample = base, ..., GD_FLOAT64) to the end, where base is
@@ -127,6 +128,15 @@ int main(int argc, char **argv)
       }
       fclose(f);
       (void)k;
+    } else if (line[0] == 'T' && line[1] == ' ') {
+      /* T <file> <text, '|' = newline>: a text file (LINTERP table) */
+      char name[256], path[8192]; int off = 0; FILE *f; char *q;
+      if (sscanf(line + 1, " %255s%n", name, &off) < 1) { printf("badcmd\n"); continue; }
+      snprintf(path, sizeof path, "%s/%s", dir, name);
+      f = fopen(path, "w");
+      for (q = line + 1 + off; *q; q++) fputc(*q == '|' ? '\n' : *q, f);
+      fputc('\n', f);
+      fclose(f);
     } else if (line[0] == 'O') {
       char path[8192];
       FILE *f;
